@@ -450,6 +450,114 @@ func opStr(it item) any {
 		"alloc": ms1.TotalAlloc - ms0.TotalAlloc}
 }
 
+// seqReader delivers data in pieces of at most chunk bytes (0 = whatever is asked for, -1 =
+// half of what is asked for) and counts what it has handed out; after the data it returns err.
+type seqReader struct {
+	data  []byte
+	pos   int
+	chunk int
+	err   error
+	after int
+}
+
+func (s *seqReader) Read(p []byte) (int, error) {
+	if s.pos >= len(s.data) {
+		s.after++
+		if s.after > 4096 {
+			panic(core.RunawaySentinel("reads after end"))
+		}
+		return 0, s.err
+	}
+	if len(p) == 0 {
+		return 0, nil
+	}
+	n := len(p)
+	if s.chunk > 0 && n > s.chunk {
+		n = s.chunk
+	}
+	if s.chunk < 0 && n > 1 {
+		n = n / 2
+	}
+	n = copy(p[:n], s.data[s.pos:])
+	s.pos += n
+	return n, nil
+}
+
+// strseq: a string/byte array of K bytes followed by a uint32 and a uint16 on one stream;
+// reports what ReadString/ReadBytes returned, where the stream stood afterwards and what the
+// next two reads returned. Lo > 0 cuts the stream after Lo bytes (then Err).
+func opStrSeq(it item) any {
+	n := it.K
+	stream := make([]byte, 0, n+10)
+	stream = append(stream, byte(n), byte(n>>8), byte(n>>16), byte(n>>24))
+	for j := 0; j < n; j++ {
+		stream = append(stream, byte(j*7+3))
+	}
+	stream = append(stream, 0xD4, 0xC3, 0xB2, 0xA1, 0xAA, 0x55)
+	if it.Lo > 0 && int(it.Lo) < len(stream) {
+		stream = stream[:it.Lo]
+	}
+	chunk := 0
+	switch it.Variant {
+	case "1":
+		chunk = 1
+	case "3":
+		chunk = 3
+	case "4096":
+		chunk = 4096
+	case "1000":
+		chunk = 1000
+	case "half":
+		chunk = -1
+	}
+	sr := &seqReader{data: exact(stream), chunk: chunk, err: mkErr(it.Err)}
+	var got []byte
+	var posAfter int
+	var next32 uint32
+	var next16 uint16
+	var errAfterString, errS string
+	var ms0, ms1 runtime.MemStats
+	runtime.ReadMemStats(&ms0)
+	out, site := core.Guard(func() {
+		er := iohelp.NewErrorReader(sr)
+		if it.Type == "bytes" {
+			got = iohelp.ReadBytes(er)
+		} else {
+			got = []byte(iohelp.ReadString(er))
+		}
+		posAfter = sr.pos
+		if er.Err != nil {
+			errAfterString = er.Err.Error()
+		}
+		next32 = iohelp.ReadUint32(er)
+		next16 = iohelp.ReadUint16(er)
+		if er.Err != nil {
+			errS = er.Err.Error()
+		}
+	})
+	runtime.ReadMemStats(&ms1)
+	bodyOK := len(got) == n
+	for j := 0; bodyOK && j < len(got); j++ {
+		if got[j] != byte(j*7+3) {
+			bodyOK = false
+		}
+	}
+	// after a failure: what the stream delivered, then at most zero bytes (never anything else)
+	delivered := len(stream) - 4
+	prefixOK := true
+	for j := 0; j < len(got); j++ {
+		if j < delivered && j < n {
+			if got[j] != byte(j*7+3) {
+				prefixOK = false
+			}
+		} else if got[j] != 0 {
+			prefixOK = false
+		}
+	}
+	return map[string]any{"outcome": out, "site": site, "len": len(got), "body_ok": bodyOK, "prefix_ok": prefixOK, "pos_after": posAfter, "stream_len": len(stream),
+		"next32": next32, "next16": next16, "err_after_string": errAfterString, "err": errS, "alloc": ms1.TotalAlloc - ms0.TotalAlloc}
+}
+
 func main() {
 	core.Serve(func(raw json.RawMessage, e *core.Emitter) any {
 		var it item
@@ -467,6 +575,8 @@ func main() {
 			return opFail(it)
 		case "str":
 			return opStr(it)
+		case "strseq":
+			return opStrSeq(it)
 		case "ping":
 			return map[string]any{"pong": true}
 		}
